@@ -143,5 +143,8 @@ def gen_ActivationDat() -> str:
             "def barn : Dec := %s" % lean_dec((bm, be)),
             "/-- the literal `%s` of `root` (atoms per mol / decays per second per µCi) -/" % uci,
             "def uCi : Dec := %s" % lean_dec((um, ue)), "",
+            "/-- the module constants in any number type (`Float`: driver, `ℝ`: theorems) -/",
+            "def consts {α : Type} [Transc α] [NatCast α] [OfScientific α] : Consts α :=",
+            "  { ln2 := Transc.log (ln2Arg : α), uCi := uCi.toNum }", "",
             "end PtGen.ActivationDat", ""]
     return "\n".join(out)
